@@ -1,12 +1,17 @@
 #!/bin/bash
 # Runs every confirmed seeded change against the check of the property it targets (plus extra checks
 # given in seeded/<id>/extra_checks, if any) and records the verdict lines in seeded/<id>/detection.txt
+# usage: tools/seed_matrix.sh [prefix ...]   (no argument: all)
 cd /verif
 for d in seeded/*/; do
   id=$(basename $d); prop=${id%%-*}
   [ -f $d/patch.diff ] || continue
-  if [ -n "$1" ] && [[ "$id" != $1* ]]; then continue; fi
+  if [ $# -gt 0 ]; then ok=0; for p in "$@"; do [[ "$id" == $p* ]] && ok=1; done; [ $ok = 1 ] || continue; fi
+  patch=$d/patch.diff; [ -f $d/patch_rebased.diff ] && patch=$d/patch_rebased.diff
+  if ! git -C /repo apply --check $(readlink -f $patch) 2>/dev/null; then
+    echo "#### $id: patch no longer applies on /repo HEAD (made before later fix commits); keeping earlier detection.txt"; continue
+  fi
   extra=""; [ -f $d/extra_checks ] && extra=$(cat $d/extra_checks)
   echo "#### $id"
-  tools/try_seed.sh $d/patch.diff $prop $extra 2>&1 | grep -E "^==|^PASS|^FAIL|signature=" | cut -c1-220 | tee $d/detection.txt
+  { echo "repo HEAD $(git -C /repo rev-parse --short HEAD), patch $(basename $patch)"; tools/try_seed.sh $patch $prop $extra 2>&1 | grep -E "^==|^PASS|^FAIL|signature=" | cut -c1-220; } | tee $d/detection.txt
 done
